@@ -8,6 +8,8 @@ from harness import fsctl
 WORKER = os.path.join(common.VERIF, "harness", "load_worker.py")
 COMPRESSORS = [None, ("zlib", 3), ("gzip", 3), ("bz2", 3), ("lzma", 3), ("xz", 3)]
 OBJECTS = ["{'a': list(range(50)), 'b': 'x' * 100, 'c': (1, 2.5, None, b'bytes')}", "[('k%d' % i, i * 1.5) for i in range(300)]", "'short'", "b'\\x00' * 9000"]
+# text that is not ASCII: a cut may fall inside a multi-byte character (read outside a pickle frame: protocol 3, or >= 64 KiB)
+OBJECTS_P = [("['cach\\u00e9 \\u2713 \\U0001F600', '\\u2713' * 40]", 3), ("'\\u2713\\u00e9' * 30000", None)]
 
 
 def model(c):
@@ -66,12 +68,12 @@ def body(c):
     rng = random.Random(c.seed)
     base = common.scratch("c14")
     files = []      # (path, orig expr, compressor name, length)
-    objs = OBJECTS if not c.quick else OBJECTS[:3]
-    for oi, oexpr in enumerate(objs):
+    objs = [(o, None) for o in (OBJECTS if not c.quick else OBJECTS[:3])] + OBJECTS_P
+    for oi, (oexpr, proto) in enumerate(objs):
         obj = eval(oexpr)
         for comp in COMPRESSORS:
             p = os.path.join(base, "o%d_%s.pkl" % (oi, comp[0] if comp else "raw"))
-            joblib.dump(obj, p, compress=comp if comp else 0)
+            joblib.dump(obj, p, compress=comp if comp else 0, protocol=proto)
             files.append((p, oexpr, comp[0] if comp else "raw", os.path.getsize(p)))
     # files whose compressed length sits just after a block boundary (the last raw block holds only the stream trailer)
     tuned = []
@@ -89,7 +91,8 @@ def body(c):
     for p, oexpr, name, ln in files + tuned:
         if ln <= 700 and not c.quick: cuts = list(range(0, ln))
         elif ln <= 700: cuts = sorted(set(list(range(0, 40)) + list(range(40, ln, 7)) + list(range(max(0, ln - 20), ln))))
-        else: cuts = sorted({0, 1, 2, 3, 5, 10, 11, 12, 100, ln // 2, 8191, 8192, 8193, ln - 8193, ln - 8192, ln - 9, ln - 8, ln - 5, ln - 4, ln - 3, ln - 2, ln - 1} & set(range(0, ln)))
+        else: cuts = sorted(({0, 1, 2, 3, 5, 10, 11, 12, 100, ln // 2, 8191, 8192, 8193, ln - 8193, ln - 8192, ln - 9, ln - 8, ln - 5, ln - 4, ln - 3, ln - 2, ln - 1}
+                           | set(range(ln // 3, ln // 3 + 6)) | set(range(ln // 2, ln // 2 + 6)) | set(range(70000, 70006))) & set(range(0, ln)))
         for cut in cuts:
             cases.append({"file": p, "cut": cut, "orig": oexpr, "kind": "truncated", "comp": name})
         for ex in extras + [second["zlib"][:4000], second["raw"][:2000]]:
